@@ -212,6 +212,7 @@ define_ops! {
     try_from_be_slice = |s: BY| Uint::<B, L>::try_from_be_slice(&s);
     try_from_le_slice = |s: BY| Uint::<B, L>::try_from_le_slice(&s);
     from_str = |s: BY| match std::str::from_utf8(&s) { Ok(t) => opt(t.parse::<Uint<B, L>>()), Err(_) => V::None };
+    bits_from_str = |s: BY| match std::str::from_utf8(&s) { Ok(t) => opt(t.parse::<Bits<B, L>>()), Err(_) => V::None };
 }
 
 dispatch_widths!(dispatch, call, Op;
@@ -956,7 +957,7 @@ fn model(bits: usize, op: Op, args: &[V]) -> Expect {
             let v = if op == try_from_be_slice { BigUint::from_bytes_be(s()) } else { BigUint::from_bytes_le(s()) };
             is(if s().len() <= nb && v < m { V::some(u(&v, bits)) } else { V::None }).nt(true)
         }
-        from_str => from3(pg_text_denotes(s()), bits, true),
+        from_str | bits_from_str => from3(pg_text_denotes(s()), bits, true),
     }
 }
 
@@ -1345,7 +1346,7 @@ fn mutations(enc: &[u8]) -> Vec<Vec<u8>> {
 const BYTE_DECODERS: &[Op] = &[
     Op::json_dec, Op::json_reader_dec, Op::json_value_dec, Op::json_bits_dec, Op::bincode_dec, Op::bincode_reader_dec, Op::bincode_bits_dec, Op::rlp_dec, Op::rlp_bits_dec, Op::alloy_dec, Op::fastrlp03_dec, Op::fastrlp04_dec,
     Op::scale_dec, Op::scale_opaque_dec, Op::ssz_dec, Op::borsh_dec, Op::borsh_bits_dec, Op::borsh_reader_dec, Op::der_dec, Op::der_anyref_dec, Op::der_any_dec, Op::der_intref_dec,
-    Op::der_int_dec, Op::der_uintref_dec, Op::der_uint_dec, Op::biguint_try, Op::try_from_be_slice, Op::try_from_le_slice, Op::from_str,
+    Op::der_int_dec, Op::der_uintref_dec, Op::der_uint_dec, Op::biguint_try, Op::try_from_be_slice, Op::try_from_le_slice, Op::from_str, Op::bits_from_str,
 ];
 
 fn decode_all(l: &mut Local, bits: usize, input: &[u8]) {
@@ -1391,6 +1392,12 @@ fn valid_encodings(bits: usize, v: &BigUint) -> Vec<Vec<u8>> {
         rc::scale_bytes(&if v.is_zero() { vec![] } else { v.to_bytes_le() }),
         rc::bincode(v, (v.bits() as usize + 7) / 8),
     ];
+    if v.bits() <= 80 {
+        // binary / octal texts (short values only: every mutation of a 1000-digit text would dominate the run)
+        encs.push(format!("0b{}", v.to_str_radix(2)).into_bytes());
+        encs.push(format!("0B{}", v.to_str_radix(2).chars().enumerate().flat_map(|(i, c)| if i % 4 == 1 { vec![c, '_'] } else { vec![c] }).collect::<String>()).into_bytes());
+        encs.push(format!("0o{}", v.to_str_radix(8)).into_bytes());
+    }
     for b in [3u32, 10, 255] {
         let mut dg: Vec<u8> = vec![];
         let mut t = v.clone();
